@@ -51,7 +51,7 @@ ASSUMPTIONS = [
     "noise of the two g values",
     "ordering v+ < v- and T+ > Tn are judged for deflagrations only (the property claims only v- = c_b(T-) for hybrids)",
     "ranges: advertised velocity judged by (i) lying in the scan interval of the first crossing, (ii) T(advertised) == tabulated maximum "
-    "within |dT/dvw|*4(atol+rtol*v) + |dT/dTn|*Tn*60*rtol + 2e3*atol*T + 1e-10*Tn at a validated matching, (iii) all slower scan "
+    "within |dT/dvw|*4(atol+rtol*v) + |dT/dTn|*Tn*60*rtol + |dT/dv+|*16(atol+rtol*v+) + 2e3*atol*T + 1e-10*Tn at a validated matching, (iii) all slower scan "
     "velocities inside the ranges; a range exceeded on the whole window (kind 'below') does not meet the property's premise "
     "('reached at some velocity inside the window') and is only tagged",
     "doesPhaseTraceLimitvmax judged only where documented unambiguously: False/False when nothing limits the window, "
@@ -428,12 +428,17 @@ def judge_fastest(r: Rel, eos, Tn, tol, base, rows, label, rg, kL, kH) -> int:
             for key, Tmax, nm in (("Tm", TmaxL, "T-"), ("Tp", TmaxH, "T+")):
                 T = val[key]
                 if pa is None:
-                    # kink inside the stencil: slope from the scan interval (x3), dT/dTn from scale covariance (x5)
+                    # kink inside the stencil: slope from the scan interval (x3), dT/dTn from scale covariance (x5),
+                    # dT/dv+ = 0 (absorbed in the x5)
                     r.tag("range-tolerance-envelope")
-                    slope, dTn = 3 * abs(rows[ihi][key] - rows[ilo][key]) / (vhi - vlo), 5 * T / Tn
+                    slope, dTn, dvp = 3 * abs(rows[ihi][key] - rows[ilo][key]) / (vhi - vlo), 5 * T / Tn, 0.0
                 else:
-                    slope, dTn = abs(pa[f"d{key}_dvw"]), abs(pa[f"d{key}_dTn"])
-                tT = slope * 4 * (tol["atol"] + tol["rtol"] * adv) + dTn * Tn * 60 * tol["rtol"] + 2e3 * tol["atol"] * T + 1e-10 * Tn
+                    slope, dTn, dvp = abs(pa[f"d{key}_dvw"]), abs(pa[f"d{key}_dTn"]), abs(pa[f"{key}_vp"])
+                # brentq on vw + (shock integration/brentq on Tn) + brentq on v+ inside findMatching (factor 8 as in C03)
+                # + hybr on the temperatures; T(vw) as the code evaluates it is a step function at that level and
+                # brentq stops at a step, so the evaluation noise enters once for the stop and once for our re-evaluation
+                tT = (slope * 4 * (tol["atol"] + tol["rtol"] * adv) + dTn * Tn * 60 * tol["rtol"]
+                      + dvp * 16 * (tol["atol"] + tol["rtol"] * val["vp"]) + 2e3 * tol["atol"] * T + 1e-10 * Tn)
                 limiting = (key == "Tm" and "low" in which) or (key == "Tp" and "high" in which)
                 if limiting and (which in ("low", "high")):
                     r.close(f"{label}:{nm}(fastestDeflag)==TMax", T, Tmax, tT, slope=slope, dT_dTn=dTn, **info)
